@@ -243,9 +243,30 @@ func analyse(c *gen.Case, r *ref.Result, storeSlow, loadSlow, prefSlow bool) *an
 	// --- jumps that may be known to the branch target buffer before their
 	// first architectural execution: a jump on the wrong path of a taken
 	// conditional branch can execute (and be learned) before the branch
-	// resolves; the flush squashes it but not the buffer entry. Every taken
-	// branch is treated as slow here (the wrong path is followed through jumps).
-	specJump := map[int]bool{}
+	// resolves; the flush squashes it but not the buffer entry. A jump the buffer
+	// does not know yet asks for a flush itself and nothing younger is fetched
+	// (the wrong path ends there); a known one redirects the fetch and the wrong
+	// path goes on at its target. Every taken branch is treated as slow here.
+	// firstExec: first architectural execution of a jump (trace step); specAt:
+	// earliest taken branch (trace step) whose wrong path reaches it.
+	firstExec := map[int]int{}
+	specAt := map[int]int{}
+	for i, s := range tr {
+		if s.Jump {
+			if _, ok := firstExec[s.Idx]; !ok {
+				firstExec[s.Idx] = i
+			}
+		}
+	}
+	knownAt := func(idx, i int) bool {
+		if f, ok := firstExec[idx]; ok && f < i {
+			return true
+		}
+		if f, ok := specAt[idx]; ok && f < i {
+			return true
+		}
+		return false
+	}
 	{
 		any := false
 		for _, s := range tr {
@@ -255,7 +276,7 @@ func analyse(c *gen.Case, r *ref.Result, storeSlow, loadSlow, prefSlow bool) *an
 		}
 		if any {
 			m := ref.NewMachine(&c.Prog, c.Init())
-			for _, s := range tr {
+			for i, s := range tr {
 				if s.CondBr && s.Taken {
 					w := m.Clone()
 					w.Pc = s.Pc
@@ -266,7 +287,13 @@ func analyse(c *gen.Case, r *ref.Result, storeSlow, loadSlow, prefSlow bool) *an
 						}
 						in := c.Prog.Ins[idx]
 						if k > 0 && in.IsJump() {
-							specJump[idx] = true
+							known := knownAt(idx, i)
+							if f, ok := specAt[idx]; !ok || i < f {
+								specAt[idx] = i
+							}
+							if !known {
+								break
+							}
 						}
 						if k > 0 && in.Op == "ret" {
 							break
@@ -400,7 +427,11 @@ func analyse(c *gen.Case, r *ref.Result, storeSlow, loadSlow, prefSlow bool) *an
 			brUncommitted[i] = sinceBr
 		}
 		firstJump := false
-		if s.Jump && !jumpSeen[s.Idx] && !specJump[s.Idx] && os.Getenv("VERIF_NOJUMPDRAIN") == "" {
+		specKnown := false
+		if f, ok := specAt[s.Idx]; ok && f < i {
+			specKnown = true // executed on a squashed wrong path before: the buffer knows it
+		}
+		if s.Jump && !jumpSeen[s.Idx] && !specKnown && os.Getenv("VERIF_NOJUMPDRAIN") == "" {
 			// a jump met for the first time misses the branch target buffer and
 			// flushes like a mispredicted branch (older instructions complete first)
 			jumpSeen[s.Idx] = true
@@ -515,10 +546,12 @@ func analyse(c *gen.Case, r *ref.Result, storeSlow, loadSlow, prefSlow bool) *an
 							// has not read yet (renaming lets it through)
 							a.renameOrder = true
 						}
-						if in.Op == "ret" || (in.IsJump() && !slow[i]) {
-							// decode stalls at an unconditional jump and stops at a ret; behind
-							// a slow branch the jump resolves long before the branch does and
-							// the wrong path continues at its target
+						if in.Op == "ret" || (in.IsJump() && !(slow[i] && knownAt(idx, i))) {
+							// decode stops at a ret and stalls at an unconditional jump; a
+							// jump the branch target buffer does not know asks for a flush
+							// itself (nothing younger is fetched); behind a slow branch a
+							// known jump redirects the fetch and the wrong path continues at
+							// its target
 							break
 						}
 					}
